@@ -103,26 +103,40 @@ def agree2 (req : Json) : R Reply := do
   return { model, holds := err.isNone && bad.isEmpty,
            info := Json.arr (bad.map (fun (t, g1, g2) => Json.arr #[Json.str t, Json.str g1, Json.str g2])).toArray }
 
-/-- op "apply": the adjustment table `applyKern` gives on the MODEL's program, for every script tag asked for and every
-    ordered pair of the listed glyphs (zero entries left out) — compared by the harness with what the independent GPOS
-    interpreter reads from the COMPILED font -/
+/-- "tag" (default language) or "tag/lang" -/
+def splitKey (k : String) : String × String :=
+  match k.splitOn "/" with
+  | [t, l] => (t, l)
+  | _ => (k, "dflt")
+
+/-- op "apply": the adjustment table `applyKernLang` gives on the MODEL's program, for every (script tag, language) asked for
+    and every ordered pair of the listed glyphs (zero entries left out) — compared by the harness with what the independent GPOS
+    interpreter reads from the LangSys records of the COMPILED font.  `otherTags` / `otherLangSys`: what other (hand-written)
+    features put into the ScriptList without generated kerning. -/
 def apply (req : Json) : R Reply := do
   let i ← field req "in"
   let k ← parseIn i
   let p := k.program
-  let tags ← asList asStr (← field i "applyTags")
+  let keys ← asList asStr (← field i "applyTags")
   let names ← asList asStr (← field i "applyGlyphs")
   let other ← match i.getObjVal? "otherTags" with
     | .ok j => asList asStr j
     | .error _ => pure []
-  let table := tags.map (fun t =>
-    Json.arr #[Json.str t, Json.arr (names.flatMap (fun g1 => names.filterMap (fun g2 =>
-      let a := applyKernIn other p t g1 g2
+  let otherLS ← match i.getObjVal? "otherLangSys" with
+    | .ok j => asList (asPair asStr asStr) j
+    | .error _ => pure []
+  let d : Declared := { tags := other, langSys := otherLS }
+  let table := keys.map (fun key =>
+    let (t, l) := splitKey key
+    Json.arr #[Json.str key, Json.arr (names.flatMap (fun g1 => names.filterMap (fun g2 =>
+      let a := applyKernLang d p t l g1 g2
       if a.1 == 0 && a.2 == 0 then none else some (Json.arr #[Json.str g1, Json.str g2, ratJ a.1, ratJ a.2])))).toArray])
-  -- the hypotheses of the end-to-end theorem, evaluated for every (script, tag, g1, g2): how many triples they cover, and (a
-  -- theorem, so this list is always empty) the triples on which `applyKern` is not the rounded UFO value
+  -- the hypotheses of the end-to-end theorems, evaluated for every (script, tag, g1, g2) and every declared language: how many
+  -- triples they cover, and (theorems, so this list is always empty) those on which the applied adjustment is not the rounded
+  -- UFO value
   let scripts := (k.c.glyphScripts.flatMap (·.2)).eraseDups
   let mut met : Nat := 0
+  let mut metLang : Nat := 0
   let mut bad : List Json := []
   for s in scripts do
     for tag in (alookup s k.rc.otTags).getD [] do
@@ -130,10 +144,16 @@ def apply (req : Json) : R Reply := do
         for g2 in names do
           if e2eHyp k.c k.rc k.glyphs k.groups k.kerning k.q k.marks k.ignoreMarks (k.todo.contains "kern") (k.todo.contains "dist") s tag g1 g2 then
             met := met + 1
-            if applyKern p tag g1 g2 != e2eExpected k.c k.groups k.kerning k.q s g1 g2 then
+            let expected := e2eExpected k.c k.groups k.kerning k.q s g1 g2
+            if applyKern p tag g1 g2 != expected then
               bad := bad ++ [Json.arr #[Json.str s, Json.str tag, Json.str g1, Json.str g2]]
+            for lang in langsOf k.rc tag do
+              if langHyp d k.c k.rc s tag lang g1 g2 then
+                metLang := metLang + 1
+                if applyKernLang d p tag lang g1 g2 != expected then
+                  bad := bad ++ [Json.arr #[Json.str s, Json.str (tag ++ "/" ++ lang), Json.str g1, Json.str g2]]
   return { model := Json.arr table.toArray, holds := true, hyp := Json.bool (met > 0),
-           info := Json.mkObj [("e2e_met", natJ met), ("e2e_bad", Json.arr bad.toArray)] }
+           info := Json.mkObj [("e2e_met", natJ met), ("e2e_lang_met", natJ metLang), ("e2e_bad", Json.arr bad.toArray)] }
 
 def handle (op : String) (req : Json) : R Reply :=
   match op with
